@@ -4,7 +4,7 @@ from .. import nodegen
 from ._nodecommon import *
 
 ID = "C15"
-LEAN_MODULES = ["VpnCloud.Proofs.C15", "VpnCloud.Proofs.C15Node", "VpnCloud.Proofs.C15More"]
+LEAN_MODULES = ["VpnCloud.Proofs.C15", "VpnCloud.Proofs.C15Node", "VpnCloud.Proofs.C15More", "VpnCloud.Proofs.GuardsUsed"]
 THEOREMS = ["VpnCloud.Proofs.C15." + n for n in ("interval_safe", "keepalive_default_safe", "backoff_bounded")] + [
             "VpnCloud.Proofs.C15Node.housekeep_removes_expired", "VpnCloud.Proofs.C15Node.expired_peer_removed"] + [
             "VpnCloud.Proofs.C15More." + n for n in ("housekeep_schedules_safe", "housekeep_delay_safe_for_peer", "housekeep_keeps_schedule", "housekeep_interval_no_panic",
@@ -12,6 +12,7 @@ THEOREMS = ["VpnCloud.Proofs.C15." + n for n in ("interval_safe", "keepalive_def
                 "data_does_not_refresh", "healthy_never_expires", "tinv_after_announcement", "publish_le_own", "timeout_zero_expires", "advertised_above_own_expires",
                 "late_first_announcement_expires", "silent_removed", "silent_removed_node", "expired_peer_redialled", "handshake_sets_expiry", "handshake_keeps_schedule",
                 "reconnect_forever", "housekeep_reconnect_forever", "reconnect_dials", "housekeep_dials")]
+THEOREMS = THEOREMS + ["VpnCloud.Proofs.GuardsUsed." + n for n in ('peerExpired_boundary', 'announceDue_boundary', 'ownResetDue_boundary', 'reconnect_at', 'reconnect_silent', 'reconnectNotDue_boundary', 'backoffDoubles_boundary', 'backoffCapped_boundary')]
 RULE = ("suite node: announcement interval through a real node's housekeeping for own settings (peer timeout, keepalive) from a grid incl. 0, 1, 59, 60, 119, 120, 121, 300, 65535 x advertised "
         "timeouts (all 65536 in thorough, boundary values and a sample in quick); heterogeneous meshes run for 3 x the largest timeout; silence injection (all datagrams of one node dropped from time t); "
         "back-off of a configured unreachable peer over 48 h (thorough) / 3 h (quick) of simulated time; distinct non-trivial = distinct (op, #datagrams out, #interface writes, #peers, #pending, mutation kind)")
